@@ -363,6 +363,26 @@ func (fv *FV) havocTarget(st *State, env *Env, a *Clause, spec *FuncSpec, pos to
 			cur = env.fieldStep(cur, idx)
 		}
 	case *ECall:
+		if x.Fn == "anyobj" {
+			names, sorts, ok := fv.assignHeapStatic(a.E, spec, nil, nil)
+			if !ok {
+				fv.outsidef("bad anyobj() target %s", a.Text)
+				return
+			}
+			for i, n := range names {
+				st.heap[n] = fv.freshConst(st, "hv_"+n, sorts[i], nil)
+			}
+			return
+		}
+		if gs := fv.ghostSpec(x.Fn, spec.PkgName); gs != nil && len(x.Args) == 1 {
+			obj := env.Eval(x.Args[0])
+			rt, _ := fv.eng.resolveType(gs.Result, gs.PkgName)
+			name := ghostHeapName(gs)
+			vs := fv.sortOf(rt)
+			h := fv.heapGet(st.heap, st.epoch, name, arraySort(SInt, vs))
+			st.heap[name] = fv.def(st, name, tStore(h, obj, fv.freshConst(st, "hv_"+gs.Name, vs, rt)))
+			return
+		}
 		if x.Fn == "mapsof" {
 			names, sorts, ok := fv.assignHeapStatic(a.E, spec, nil, nil)
 			if !ok {
@@ -421,6 +441,9 @@ func (fv *FV) calleeFrameCheck(st *State, calleeOld *Env, spec *FuncSpec, pos to
 			if !ok {
 				continue
 			}
+			if fv.wildMaps()[cn] {
+				continue
+			}
 			alts := []Term{tNot(fv.allocAtEntry(obj))}
 			for _, mine := range fv.spec.Assigns {
 				ms, ok := mine.E.(*ESel)
@@ -435,11 +458,25 @@ func (fv *FV) calleeFrameCheck(st *State, calleeOld *Env, spec *FuncSpec, pos to
 			}
 			fv.oblige(st, "frame", "callee:"+spec.Key+":"+x.Name, pos, tOr(alts...), "assigns")
 		case *ECall:
-			if x.Fn == "mapsof" {
+			if gs := fv.ghostSpec(x.Fn, spec.PkgName); gs != nil && len(x.Args) == 1 {
+				obj := calleeOld.Eval(x.Args[0])
+				alts := []Term{tNot(fv.allocAtEntry(obj))}
+				for _, mine := range fv.spec.Assigns {
+					if mc, ok := mine.E.(*ECall); ok && len(mc.Args) == 1 {
+						if mg := fv.ghostSpec(mc.Fn, fv.spec.PkgName); mg == gs {
+							alts = append(alts, tEq(obj, env.old.Eval(mc.Args[0])))
+						}
+					}
+				}
+				fv.oblige(st, "frame", "callee:"+spec.Key+":"+gs.Name, pos, tOr(alts...), "assigns")
+				continue
+			}
+			if x.Fn == "mapsof" || x.Fn == "anyobj" {
 				names, _, ok := fv.assignHeapStatic(a.E, spec, nil, nil)
 				if ok && !fv.wildMaps()[names[0]] {
-					fv.oblige(st, "frame", "callee:"+spec.Key+":mapsof", pos, tFalse, "assigns")
+					fv.oblige(st, "frame", "callee:"+spec.Key+":"+x.Fn, pos, tFalse, "assigns")
 				}
+				continue
 			}
 			if x.Fn == "contents" && len(x.Args) == 1 {
 				m := calleeOld.Eval(x.Args[0])
@@ -572,7 +609,7 @@ func (fv *FV) wildMaps() map[string]bool {
 		return out
 	}
 	for _, a := range fv.spec.Assigns {
-		if c, ok := a.E.(*ECall); ok && c.Fn == "mapsof" {
+		if c, ok := a.E.(*ECall); ok && (c.Fn == "mapsof" || c.Fn == "anyobj") {
 			if names, _, ok := fv.assignHeapStatic(a.E, fv.spec, nil, nil); ok {
 				for _, n := range names {
 					out[n] = true
